@@ -35,6 +35,11 @@ type c09Case struct {
 	EOFWithData bool     `json:"eof_with_data"`
 	ForceOrder  bool     `json:"force_order"` // chunk k may not deliver before chunk k+1 has been parsed
 	SlowConsume bool     `json:"slow_consume"`
+	// OrderDec (non-empty): window-permutation mode. Every parsed chunk is held; whenever no further chunk can be
+	// parsed while the oldest held chunk is kept back (the window oldest..oldest+conc is complete, or the reader is done),
+	// held chunks are released one at a time in the order these decisions pick (index into the held chunks sorted by
+	// sequence number, modulo their count; negative = the newest), until the oldest one has been released.
+	OrderDec []int `json:"order_dec,omitempty"`
 }
 
 var errInjected = errors.New("injected reader failure")
@@ -107,7 +112,8 @@ func (r *fragReader) Read(p []byte) (int, error) {
 	return n, nil
 }
 
-// orderCtl forces chunk k to wait (after parsing, before delivering) until chunk k+1 has been parsed.
+// orderCtl forces chunk k to wait (after parsing, before delivering) until chunk k+1 has been parsed (pairwise mode),
+// or holds every parsed chunk and releases them in a drawn order (window-permutation mode).
 type orderCtl struct {
 	mu         sync.Mutex
 	cond       *sync.Cond
@@ -116,12 +122,71 @@ type orderCtl struct {
 	readerDone bool
 	force      bool
 	chunks     int
+	// window-permutation mode
+	dec        []int
+	decAt      int
+	conc       int
+	released   map[int]bool
+	oldest     int // smallest sequence number not yet released
+	outOfOrder int // releases of a chunk other than the oldest held one
 }
 
 func newOrderCtl(force bool) *orderCtl {
-	o := &orderCtl{parsed: map[int]bool{}, force: force}
+	o := &orderCtl{parsed: map[int]bool{}, force: force, released: map[int]bool{}}
 	o.cond = sync.NewCond(&o.mu)
 	return o
+}
+
+// step (window mode, lock held): release held chunks while no further "parsed" event can arrive.
+// ParseNDStream's forwarder holds the channel of the oldest undelivered chunk and its queue has room for conc more, so
+// chunks oldest..oldest+conc can all be parsed while the oldest is kept back, and no later one can even be queued.
+func (o *orderCtl) step() {
+	for {
+		hi := o.oldest + o.conc // last chunk that can exist while `oldest` is undelivered
+		complete := false
+		if o.queued > hi {
+			complete = true
+			for s := o.oldest; s <= hi; s++ {
+				if !o.parsed[s] {
+					complete = false
+				}
+			}
+		} else if o.readerDone {
+			complete = true
+			for s := o.oldest; s < o.queued; s++ {
+				if !o.parsed[s] {
+					complete = false
+				}
+			}
+		}
+		if !complete {
+			return
+		}
+		var held []int
+		for s := o.oldest; s < o.queued && s <= hi; s++ {
+			if o.parsed[s] && !o.released[s] {
+				held = append(held, s)
+			}
+		}
+		if len(held) == 0 {
+			return
+		}
+		d := o.dec[o.decAt%len(o.dec)]
+		o.decAt++
+		pick := len(held) - 1
+		if d >= 0 {
+			pick = d % len(held)
+		}
+		s := held[pick]
+		if s != o.oldest {
+			o.outOfOrder++
+		}
+		o.released[s] = true
+		for o.released[o.oldest] {
+			o.oldest++
+		}
+		o.cond.Broadcast()
+	}
 }
 
 func (o *orderCtl) hook(ev string, seq int) {
@@ -134,12 +199,25 @@ func (o *orderCtl) hook(ev string, seq int) {
 		}
 		o.chunks++
 		o.cond.Broadcast()
+		if len(o.dec) > 0 {
+			o.step()
+		}
 	case "reader-done":
 		o.readerDone = true
 		o.cond.Broadcast()
+		if len(o.dec) > 0 {
+			o.step()
+		}
 	case "parsed":
 		o.parsed[seq] = true
 		o.cond.Broadcast()
+		if len(o.dec) > 0 {
+			o.step()
+			for !o.released[seq] {
+				o.cond.Wait()
+			}
+			return
+		}
 		if o.force {
 			for !(o.parsed[seq+1] || (o.readerDone && o.queued <= seq+1)) {
 				o.cond.Wait()
@@ -188,6 +266,7 @@ func c09Check(c c09Case) error {
 	defer stop()
 
 	oc := newOrderCtl(c.ForceOrder)
+	oc.dec, oc.conc = c.OrderDec, (procs+1)/2
 	simdjson.VerifSetStreamHook(oc.hook)
 	defer simdjson.VerifSetStreamHook(nil)
 
@@ -243,7 +322,7 @@ func c09Check(c c09Case) error {
 	// channel closed
 	wantAll := modelCanonAll(docs, canonOpts{})
 	describe := func() string {
-		return fmt.Sprintf("stream %q, fragments %v, %d reads, %d chunks, procs %d, res cap %d, reuse %d, force order %v", clip(data), clipInts(c.Frags), rd.reads, oc.chunks, procs, c.ResCap, c.Reuse, c.ForceOrder)
+		return fmt.Sprintf("stream %q, fragments %v, %d reads, %d chunks, procs %d, res cap %d, reuse %d, force order %v, release decisions %v", clip(data), clipInts(c.Frags), rd.reads, oc.chunks, procs, c.ResCap, c.Reuse, c.ForceOrder, clipInts(c.OrderDec))
 	}
 	if afterErr > 0 {
 		return fmt.Errorf("%d values were delivered after an error item (%s)", afterErr, describe())
@@ -273,13 +352,14 @@ func c09Check(c c09Case) error {
 	if err := waitGoroutines(base); err != nil {
 		return fmt.Errorf("after the result channel closed: %v", err)
 	}
-	lastC09 = c09Facts{chunks: oc.chunks, reads: rd.reads, fragInToken: rd.fragInToken}
+	lastC09 = c09Facts{chunks: oc.chunks, reads: rd.reads, fragInToken: rd.fragInToken, outOfOrder: oc.outOfOrder}
 	return nil
 }
 
 type c09Facts struct {
 	chunks, reads int
 	fragInToken   bool
+	outOfOrder    int
 }
 
 var lastC09 c09Facts
@@ -341,6 +421,21 @@ func genStreamLines(t *rapid.T, maxLines int) (lines [][]byte, crlf []bool) {
 	return
 }
 
+// genOrderDec draws the release decisions of the window-permutation mode (nil: mode off).
+func genOrderDec(t *rapid.T, oneIn int) []int {
+	if rapid.IntRange(0, oneIn-1).Draw(t, "permute") != 0 {
+		return nil
+	}
+	switch rapid.IntRange(0, 3).Draw(t, "permkind") {
+	case 0:
+		return []int{-1} // always the newest: every window is delivered in reverse completion order
+	case 1:
+		return []int{-1, 0} // newest, oldest, newest, ...
+	default:
+		return rapid.SliceOfN(rapid.IntRange(-1, 9), 1, 10).Draw(t, "orderdec")
+	}
+}
+
 func genFrags(t *rapid.T) []int {
 	switch rapid.IntRange(0, 5).Draw(t, "fragkind") {
 	case 0:
@@ -371,9 +466,9 @@ func c09Eval(t fataler, c c09Case, kind string) {
 	cl := col("C09")
 	nt := f.chunks >= 2 && (f.fragInToken || blankFrag)
 	cl.Eval(nt, evidHash(b), "kind:"+kind, fmt.Sprintf("procs:%d", c.Procs), fmt.Sprintf("rescap:%d", c.ResCap), fmt.Sprintf("reuse:%d", c.Reuse),
-		boolClass("force-order", c.ForceOrder), boolClass("reader-error", c.ErrAt >= 0), fmt.Sprintf("chunks:%d", bucket(f.chunks)), boolClass("fragment-in-token", f.fragInToken))
+		boolClass("force-order", c.ForceOrder), boolClass("window-permutation", len(c.OrderDec) > 0), fmt.Sprintf("out-of-order-releases:%d", bucket(f.outOfOrder)), boolClass("reader-error", c.ErrAt >= 0), fmt.Sprintf("chunks:%d", bucket(f.chunks)), boolClass("fragment-in-token", f.fragInToken))
 	cl.Sample(func() interface{} {
-		return map[string]interface{}{"kind": kind, "lines": len(c.Lines), "frags": clipInts(c.Frags), "procs": c.Procs, "res_cap": c.ResCap, "reuse": c.Reuse, "err_at": c.ErrAt, "force_order": c.ForceOrder, "chunks": f.chunks}
+		return map[string]interface{}{"kind": kind, "lines": len(c.Lines), "frags": clipInts(c.Frags), "procs": c.Procs, "res_cap": c.ResCap, "reuse": c.Reuse, "err_at": c.ErrAt, "force_order": c.ForceOrder, "order_dec": clipInts(c.OrderDec), "out_of_order_releases": f.outOfOrder, "chunks": f.chunks}
 	})
 }
 
@@ -382,12 +477,65 @@ func TestC09_Streams(t *testing.T) {
 		lines, crlf := genStreamLines(t, 14)
 		c := c09Case{Lines: lines, CRLF: crlf, FinalNL: rapid.Bool().Draw(t, "finalnl"), Frags: genFrags(t),
 			ResCap: []int{0, 1, 10}[rapid.IntRange(0, 2).Draw(t, "rescap")], Reuse: rapid.IntRange(0, 2).Draw(t, "reuse"),
-			Procs: []int{1, 2, 16}[rapid.IntRange(0, 2).Draw(t, "procs")], ErrAt: -1,
+			Procs: []int{1, 2, 16, 4, 6}[rapid.IntRange(0, 4).Draw(t, "procs")], ErrAt: -1,
 			EOFWithData: rapid.IntRange(0, 3).Draw(t, "eofdata") == 0, ForceOrder: rapid.IntRange(0, 2).Draw(t, "force") == 0,
 			SlowConsume: rapid.IntRange(0, 5).Draw(t, "slow") == 0}
+		if c.OrderDec = genOrderDec(t, 3); c.OrderDec != nil {
+			c.ForceOrder = false
+		}
 		c09Eval(t, c, "fragmented")
 	})
 	col("C09").Completed("TestC09_Streams")
+}
+
+// TestC09_Permuted: streams of many short lines delivered a line or a few bytes at a time (many chunks), always in
+// window-permutation mode, so that whole windows of concurrently parsed chunks complete in drawn orders.
+func TestC09_Permuted(t *testing.T) {
+	runRapid(t, "C09_Permuted", nCases(2_500, 50_000), func(t *rapid.T) {
+		n := rapid.IntRange(12, 70).Draw(t, "lines")
+		var lines [][]byte
+		var crlf []bool
+		for i := 0; i < n; i++ {
+			switch rapid.IntRange(0, 7).Draw(t, "lk") {
+			case 0:
+				lines = append(lines, []byte{})
+			case 1, 2:
+				lines = append(lines, []byte(ndLineTemplates[rapid.IntRange(0, 9).Draw(t, "tmpl")]))
+			default:
+				lines = append(lines, []byte(fmt.Sprintf(`{"i":%d,"s":"line %d","a":[%d,true,null]}`, i, i, i*7)))
+			}
+			crlf = append(crlf, rapid.IntRange(0, 5).Draw(t, "crlf") == 0)
+		}
+		lines = append(lines, []byte(`{"last":"document"}`))
+		crlf = append(crlf, false)
+		var frags []int
+		switch rapid.IntRange(0, 2).Draw(t, "fragkind") {
+		case 0: // exactly one line per read (cycled over the stream's own line lengths)
+			for i, l := range lines {
+				f := len(l) + 1
+				if crlf[i] {
+					f++
+				}
+				frags = append(frags, f)
+			}
+		case 1:
+			frags = []int{rapid.IntRange(1, 40).Draw(t, "fixed")}
+		default:
+			frags = rapid.SliceOfN(rapid.IntRange(1, 90), 1, 8).Draw(t, "frags")
+		}
+		dec := genOrderDec(t, 1)
+		c := c09Case{Lines: lines, CRLF: crlf, FinalNL: rapid.Bool().Draw(t, "finalnl"), Frags: frags,
+			ResCap: []int{0, 1, 10}[rapid.IntRange(0, 2).Draw(t, "rescap")], Reuse: rapid.IntRange(0, 2).Draw(t, "reuse"),
+			Procs: []int{2, 4, 6, 16, 16}[rapid.IntRange(0, 4).Draw(t, "procs")], ErrAt: -1, OrderDec: dec,
+			EOFWithData: rapid.IntRange(0, 3).Draw(t, "eofdata") == 0, SlowConsume: rapid.IntRange(0, 7).Draw(t, "slow") == 0}
+		if rapid.IntRange(0, 5).Draw(t, "witherr") == 0 {
+			c.ErrAt = rapid.IntRange(0, len(buildStream(lines, crlf, c.FinalNL))).Draw(t, "errat")
+			c.ErrKind = rapid.IntRange(0, 3).Draw(t, "errkind")
+			c.EOFWithData = false // a reader that hands out its last bytes together with io.EOF never gets to fail
+		}
+		c09Eval(t, c, "many-chunks-permuted")
+	})
+	col("C09").Completed("TestC09_Permuted")
 }
 
 // TestC09_ReaderErrors: reader error at every byte offset of short streams, sampled offsets for longer ones.
@@ -396,7 +544,10 @@ func TestC09_ReaderErrors(t *testing.T) {
 		lines, crlf := genStreamLines(t, 6)
 		base := c09Case{Lines: lines, CRLF: crlf, FinalNL: rapid.Bool().Draw(t, "finalnl"), Frags: genFrags(t),
 			ResCap: []int{0, 1, 10}[rapid.IntRange(0, 2).Draw(t, "rescap")], Reuse: rapid.IntRange(0, 2).Draw(t, "reuse"),
-			Procs: []int{1, 2, 16}[rapid.IntRange(0, 2).Draw(t, "procs")], ForceOrder: rapid.IntRange(0, 3).Draw(t, "force") == 0}
+			Procs: []int{1, 2, 16, 4, 6}[rapid.IntRange(0, 4).Draw(t, "procs")], ForceOrder: rapid.IntRange(0, 3).Draw(t, "force") == 0}
+		if base.OrderDec = genOrderDec(t, 4); base.OrderDec != nil {
+			base.ForceOrder = false
+		}
 		total := len(buildStream(lines, crlf, base.FinalNL))
 		if total <= 300 {
 			for at := 0; at <= total; at++ {
